@@ -221,8 +221,8 @@ def ensure_built(pid=None):
         if pid is None:
             targets = []
         else:
-            targets = ['theories/Props/%s.vo' % pid] + sorted(
-                'theories/Model/' + f + 'o' for f in os.listdir(os.path.join(THEORIES, 'Model')) if f.endswith('.v'))
+            listed = [ln.strip() for ln in open(os.path.join(COQ, '_CoqProject')) if ln.strip().startswith('theories/Model/')]
+            targets = ['theories/Props/%s.vo' % pid] + sorted(f + 'o' for f in listed)
         rc, out = _run(['make', '-j16'] + targets, cwd=COQ, timeout=3000)
         fcntl.flock(lk, fcntl.LOCK_UN)
     return rc, out
